@@ -446,6 +446,20 @@ func JudgeBug(repo repository.RepoData, ref string) Verdict {
 	if nops == 0 {
 		j.U("no operation at all")
 	}
+	// An operation is addressed by its id (edits and metadata target it, comments are named after
+	// it): a history holding the same operation twice is not a history git-bug can produce.
+	seenOps := map[string]bool{}
+	dupReported := false
+	for _, p := range packs {
+		for _, raw := range p.ops {
+			id := sha(raw)
+			if seenOps[id] && !dupReported {
+				j.U("the same operation is stored twice")
+				dupReported = true
+			}
+			seenOps[id] = true
+		}
+	}
 	if len(j.u) > 0 {
 		return j.verdict()
 	}
